@@ -32,6 +32,8 @@ def term_source(pid: str, tier: str):
     out += [("PARAM", t) for t in F.param_terms(tier)]
     out += [("NEAR", t) for t in F.near_terms(tier)]
     out += [("MULTIVAR", t) for t in F.multivar_terms(tier)]
+    out += [("BINBIN", t) for t in F.binbin_terms(tier)]
+    out += [("NAMES", t) for t in F.names_terms(tier)]
     if pid in ("C01", "C02", "C08", "C17"):
         out += [("ARITH", t) for t in F.arith_terms(tier)]
     seen = set()
@@ -252,7 +254,7 @@ def _irrelevant_undefined(t, env) -> bool:
 
 
 # ---------------------------------------------------------------- extreme magnitudes
-EXTREME_VALUES = [5e-324, 2.2250738585072014e-308, 5e-309, 1e-300, 2.0 ** -1030, 1e-160, 1e160, 1e300, 8.98846567431158e307,
+EXTREME_VALUES = [5e-324, 2.2250738585072014e-308, 5e-309, 6e-309, 1e-308, 1e-154, 1e-300, 2.0 ** -1030, 1e-160, 1e160, 1e300, 8.98846567431158e307,
                   1.7976931348623157e308, 3.0, 0.5]
 DBL_MAX = Fraction(1.7976931348623157e308)
 DBL_MIN_NORMAL = Fraction(2.2250738585072014e-308)
@@ -274,6 +276,8 @@ def extreme_executions(st: Stats, pid: str):
         "Reciprocal(Reciprocal(x))": (None, None),
         "NthPower(x, 2)": (M.NPow(x, 2), lambda a, b: a * a),
         "Negation(x)": (M.Neg(x), lambda a, b: -a),
+        "Reciprocal(x)": (M.Recip(x), lambda a, b: 1 / a if a != 0 else None),
+        "Reciprocal(Multiply(x, y))": (M.Recip(M.Mul(x, y)), lambda a, b: 1 / (a * b) if a * b != 0 else None),
         "Divide(Minus(x, y), y)": (M.Div(M.Minus(x, y), y), lambda a, b: (a - b) / b if b != 0 else None),
     }
     vals = EXTREME_VALUES + [-v for v in EXTREME_VALUES]
@@ -289,10 +293,16 @@ def extreme_executions(st: Stats, pid: str):
                 if q != 0 and not (DBL_MIN_NORMAL <= abs(q) <= DBL_MAX):
                     st.inc("extreme_skipped_range")
                     continue
+                inter = None
                 if label == "Divide(Minus(x, y), y)":
-                    d = Fraction(a) - Fraction(b)
-                    if d != 0 and not (DBL_MIN_NORMAL <= abs(d) <= DBL_MAX):
+                    inter = Fraction(a) - Fraction(b)
+                elif label == "Reciprocal(Multiply(x, y))":
+                    inter = Fraction(a) * Fraction(b)
+                precise = True
+                if inter is not None and inter != 0 and not (DBL_MIN_NORMAL <= abs(inter) <= DBL_MAX):
+                    if abs(inter) > DBL_MAX or label.startswith("Divide"):
                         continue
+                    precise = False          # a subnormal intermediate: only 'finite, no DomainError' is judged
                 env = {"x": a, "y": b}
                 o = A.outcome(lambda: A.build(term).at(A.make_point(env)))
                 st.inc("transitions")
@@ -300,7 +310,7 @@ def extreme_executions(st: Stats, pid: str):
                 want = float(q)
                 ok = o[0] == "val" and A.is_finite_real(o[1]) and (
                     o[1] == want or abs(Fraction(o[1]) - q) <= abs(q) * Fraction(4, 2 ** 53))
-                if pid == "C02":
+                if pid == "C02" or not precise:
                     ok = o[0] == "val" and A.is_finite_real(o[1])
                 if not ok:
                     st.violation(case(term, env, "tree", "at(Point)", repr(want), o,
@@ -334,8 +344,13 @@ def _worker_factory(fn):
                     raise
             st.inc("terms")
             st.inc("terms_" + fam)
-            if st.c.get("terms", 0) % 97 == 1:
-                st.sample(_sample_execution(fam, t))
+            if st.c.get("terms", 0) % 97 == 53:
+                try:
+                    with time_limit(20):
+                        st.sample(_sample_execution(fam, t))
+                except BaseException as ex:  # noqa: BLE001 - a sample for the evidence file must never decide a run
+                    if isinstance(ex, KeyboardInterrupt):
+                        raise
         return st
     return work
 
